@@ -104,6 +104,7 @@ def _load():
     from .oracles.c12 import C12
     from .oracles.c13 import C13
     from .oracles.c17 import C17
+    from .oracles.c18 import C18
 
     wide = profile()
     faulty = profile(f_zero=0.8, f_infarr=0.3, f_batch0=0.8, qcap=0.7, sched=0.35, renege=0.4, batch=0.4)
@@ -172,6 +173,12 @@ def _load():
     register(Profile("C17", [C17], [(1, trk)],
                      "distinct history digest; non-trivial = >=5 changes of the true tracked state (blocking trackers: and >=1 blockage)",
                      B(40000, 400000)))
+    dl = profile(restricted=True, n=[1, 2, 2, 3, 3], k=[1, 1, 2], prio=0.4, preempt=0.0, sched=0.0, renege=0.0, cct=0.0, ccm=0.2, batch=0.2,
+                 tracker=0.8, detector=1.0, exact=0.0, baulk=0.1, syscap=0.0, f_infarr=0.0, plan={"time": 0.0, "cust": 0.0, "deadlock": 1.0},
+                 route_kinds={"matrix": 0.6, "net": 0.3, "pb": 0.1, "fpb": 0.0}, stepcap=600)
+    register(Profile("C18", [C18], [(1, dl)],
+                     "distinct history digest; non-trivial = a deadlock was reached after >=1 blockage that was not yet a deadlock",
+                     B(20000, 200000)))
     cap = profile(qcap=0.9, qcap_vals=[INF, 0, 0, 1, 2, 3], syscap=0.4, batch=0.5, baulk=0.4, renege=0.3, jockey=0.5, n=[1, 2, 2, 3], **NOREROUTE)
     register(Profile("C06", [C06], [(1, cap)],
                      "distinct history digest; non-trivial = >=1 rejection and >=1 admission into a node holding capacity-1",
